@@ -256,7 +256,9 @@ def assemble(unit, probe=False):
         pos = m.end()
     out.append(tpl[pos:])
     text = "".join(out)
-    bdir = os.path.join(CACHE, "build", unit)
+    ov = os.environ.get("VERIF_OVERLAY")
+    # overlay (mutation / patch) runs get their own build directory so that parallel runs do not mix
+    bdir = os.path.join(CACHE, "build", unit if not ov else "%s-ov-%s" % (unit, hashlib.sha256(ov.encode()).hexdigest()[:10]))
     os.makedirs(bdir, exist_ok=True)
     fn = os.path.join(bdir, ("probe_" if probe else "") + unit.replace("-", "_") + ".rs")
     open(fn, "w").write(text)
